@@ -123,6 +123,7 @@ def run_case(c, mesh=None):
             cot = m.face_corners.get_attribute("cotan")
             out["cots"] = [[float(cot[3 * i + k]) for k in range(3)] for i in range(nF)]
         lap_scalar = operators.laplacian(m, cotan=cotan)
+        out["mass"] = [float(x) for x in operators.area_weight_matrix(m).diagonal()]
         if c.get("planar"):
             lf = operators.laplacian(m, cotan=cotan, connection=conn_mod.FlatConnectionVertices(m), order=order)
             out["flat_diff"] = float(abs(lf - lap_scalar.astype(complex)).max()) if lf.nnz + lap_scalar.nnz else 0.0
